@@ -229,7 +229,7 @@ pub fn run(ctx: &Ctx, mode: Mode) -> Shard {
     let families: Vec<usize> = if ctx.thorough() {
         (0..shape::N_FAMILIES).collect()
     } else {
-        vec![0, 2]
+        vec![0, 2, 5]
     };
     let mut idx: u64 = 0;
     let mut enumerated_all = true;
@@ -252,7 +252,7 @@ pub fn run(ctx: &Ctx, mode: Mode) -> Shard {
             let w = p.windows[wi].len();
             for fam in &families {
                 // insertion families on a smaller window in quick mode
-                let bits = if !ctx.thorough() && *fam != 0 { w.min(6) } else { w };
+                let bits = if !ctx.thorough() && *fam != 0 && *fam != 5 { w.min(6) } else { w };
                 let step: u32 = if mode == Mode::C07 && ctx.thorough() && bits > 10 { 3 } else { 1 };
                 let mut mask: u32 = 1;
                 while mask < (1u32 << bits) {
@@ -283,6 +283,18 @@ pub fn run(ctx: &Ctx, mode: Mode) -> Shard {
             let out = exec::run_history(&h, &cfg, &path);
             let _ = std::fs::remove_file(&path);
             absorb(&mut shard, ctx, mode, &h, &out, &mut total, "nested-delete");
+        }
+        i += 1;
+    }
+    // ---- 4. directed: free lists spanning several pages
+    let mut i = 0usize;
+    while let Some(h) = shape::big_freelist_history(ps, i) {
+        // (re-reading everything after each of thousands of operations would take minutes and adds nothing for C07)
+        if mode != Mode::C07 && (i as u64 + 5) % ctx.nshards == ctx.shard {
+            let path = scratch.fresh("f");
+            let out = exec::run_history(&h, &cfg, &path);
+            let _ = std::fs::remove_file(&path);
+            absorb(&mut shard, ctx, mode, &h, &out, &mut total, "big-free-list");
         }
         i += 1;
     }
